@@ -161,6 +161,45 @@ class ArrayGet2D(_Arr):
 
 
 @register
+class ArrayGet3D(_Arr):
+    """arr[i, j, k] on a 2x2x2 array of arrays of arrays, for every mix of secret and plain indices: the element at
+    that index (every index of the tuple is applied, none is dropped)."""
+    name = "pysnark.array:Array.__getitem__#3d"
+
+    def configs(self, tier):
+        return [dict(mode="plain", index=ix) for ix in ("sss", "sis", "sii", "iss", "ssi", "isi", "iis")]
+
+    def setup(self, c, cfg):
+        apply_mode(c, cfg["mode"])
+        am = _arr_mod(c)
+        self._vals = [[[c.operand("e%d%d%d" % (a, b, d)) for d in range(2)] for b in range(2)] for a in range(2)]
+        A = am.Array([am.Array([am.Array(cell) for cell in plane]) for plane in self._vals])
+        ix = cfg["index"]
+        idx = tuple(c.operand("ijk"[n]) if ix[n] == "s" else 1 for n in range(3))
+        return type(A).__getitem__, (A, idx), {}
+
+    def pre(self, c, A, idx):
+        return [canon(c, c.v(x)) for x in idx if not isinstance(x, int)]
+
+    def raises(self, c, A, idx):
+        vs = [c.v(x) if not isinstance(x, int) else term(x) for x in idx]
+        return [(IndexError, Or(*[Or(v < 0, v >= 2) for v in vs]))]
+
+    def post(self, c, r, A, idx):
+        vs = [c.v(x) if not isinstance(x, int) else term(x) for x in idx]
+        ok = hasattr(r, "lc") or isinstance(r, int)
+        d = {"V.returns_an_element": ok}
+        if ok:
+            rv = c.v(r) if hasattr(r, "lc") else term(r)
+            want = z3.Sum([If(And(vs[0] == a, vs[1] == b, vs[2] == e), c.v(self._vals[a][b][e]), 0)
+                           for a in range(2) for b in range(2) for e in range(2)])
+            d["V.value"] = Eq(rv, want)
+            if hasattr(r, "lc"):
+                d["V.inv"] = c.inv(r)
+        return d
+
+
+@register
 class ArraySet2D(_Arr):
     """arr[i, j] = v on an array of arrays: exactly that cell changes, whatever mix of secret and public indices
     is used and whether the rows are Arrays or rows returned by a secret-index read (ArrayRow)."""
